@@ -20,6 +20,7 @@ RULE = ("grid of same-time (weak) loops: 2-4 simulators in a group at nesting ti
         "nobody may begin more than max sub-steps of one time; otherwise the run must complete with the same "
         "per-simulator sequences as the unguarded run. non-trivial = needed sub-steps within +-1 of the bound; "
         "distinct = distinct case hashes")
+RULE += '; plus a no-loop family (one weak hop per time step closed by a time-shifted connection, runs longer than the bound) judged by the count-based claim'
 ASSUMPTIONS = [
     "loops with exactly one weak edge per cycle (then 'number of sub-steps' and 'sub-tier value' coincide)",
     "the unguarded reference run is the same code with max_loop_iterations=10^6",
